@@ -70,11 +70,17 @@ def cases(draw, tier, kind):
     c = draw(st.integers(0, d))
     n = draw(F.trace_lengths(12 if tier == 'quick' else 20))
     tr = draw(F.traces(vs, n=n))
-    return {'law': law, 'p': p, 'q': q, 'a': a, 'b': b, 'c': c, 'd': d, 'vars': vs, 'trace': tr, 'kind': kind}
+    return {'law': law, 'p': p, 'q': q, 'a': a, 'b': b, 'c': c, 'd': d, 'vars': vs, 'trace': tr, 'kind': kind,
+            'spell': draw(st.one_of(st.none(), st.lists(st.integers(0, 11), min_size=6, max_size=6)))}
 
 
-def evaluate(kind, f, vs, tr):
-    text = 'out = ' + show(f)
+def evaluate(kind, f, vs, tr, spell=None):
+    if spell:
+        # bounds (in samples, sampling period 1 s) spelled with explicit units; the same choices on both sides of a law
+        from .C08 import Speller
+        text = 'out = ' + F.show(f, Speller(10 ** 9, 's', spell))
+    else:
+        text = 'out = ' + show(f)
     if kind == 'dt_off':
         o = run_dt_off(text, vs, tr)
         if o[0] == 'ok':
@@ -100,9 +106,10 @@ def check(case):
         return DISCARD('no-variable', labels)
     feed = [v for v in vs if v in used]
     w = {v: tr[v] for v in feed}
-    ol = evaluate(kind, lhs, feed, w)
-    orr = evaluate(kind, rhs, feed, w)
-    desc = 'law %s on %s\nlhs: %s\nrhs: %s\ntrace: %s' % (law, kind, show(lhs), show(rhs), w)
+    ol = evaluate(kind, lhs, feed, w, case.get('spell'))
+    orr = evaluate(kind, rhs, feed, w, case.get('spell'))
+    desc = 'law %s on %s%s\nlhs: %s\nrhs: %s\ntrace: %s' % (law, kind, ' (bounds spelled with units, choices %s)' % case['spell'] if case.get('spell') else '',
+                                                           show(lhs), show(rhs), w)
     if ol[0] != 'ok' and orr[0] != 'ok':
         return DISCARD('both-raise(C17)', labels)
     if ol[0] != 'ok' or orr[0] != 'ok':
